@@ -1,6 +1,7 @@
 package vk
 
 import (
+	"github.com/relab/hotstuff/internal/proto/hotstuffpb"
 	"context"
 	"fmt"
 
@@ -370,6 +371,12 @@ func c13Prune(p vbase.Params, r *vbase.Result) {
 			}
 			if target >= 0 {
 				ruler.next = rf.blocks[target]
+				if rng.Chance(1, 3) {
+					// the store is content-addressed: an equal block (same hash) decoded separately from the wire names the same
+					// block as the stored instance
+					ruler.next = hotstuffpb.BlockFromProto(hotstuffpb.BlockToProto(rf.blocks[target]))
+					r.Obs("commits_with_a_separately_decoded_instance", 1)
+				}
 			}
 			before := len(commits)
 			err := cm.TryCommit(rf.blocks[id])
